@@ -385,8 +385,30 @@ def run_values(ctx):
             if p is not None and p == n:
               raise exc
 
+          class Resumable:
+            """An iterator that stays usable after raising (map(load, files), a reader object with __next__): the item after the
+            failing one is there if anybody asks - the consumer must get the error first and never see it."""
+
+            def __init__(self):
+              self.i = 0
+
+            def __iter__(self):
+              return self
+
+            def __next__(self):
+              i = self.i
+              self.i += 1
+              if p is not None and i == p:
+                raise exc
+              if i >= n + (1 if p is not None and p < n else 0):
+                raise StopIteration
+              j = i - (1 if p is not None and i > p else 0)
+              return {'x': np.full((d, 2), j, np.float32), 'id': np.full((d,), j + (1000 if p is not None and i > p else 0), np.int32)}
+
           hist = []
-          it = jax_utils.prefetch_to_device(gen(), size)
+          resumable = (k % 2 == 0)
+          desc['source'] = 'resumable iterator' if resumable else 'generator'
+          it = jax_utils.prefetch_to_device(Resumable() if resumable else gen(), size)
           ctx.op('prefetch_to_device')
           for _ in range(n + 3):
             try:
@@ -395,6 +417,8 @@ def run_values(ctx):
               hist.append(('stop',))
             except SrcError as e:
               hist.append(('raise', e))
+              if resumable:
+                break    # what a resumable source hands out after its error is its own business
           items = [h[1] for h in hist if h[0] == 'item']
           upto = n if p is None else p
           first_term = next((j for j, h in enumerate(hist) if h[0] != 'item'), None)
